@@ -1131,4 +1131,39 @@ theorem docstring_source_shape :
     afterHandlers .typeError evalHandlers = docExc := by
   decide
 
+/-- **which documented entries count for a parameter**: the source selects them with `p.arg_name == a` — the documented name EQUALS
+    the parameter's name, as the model's `checkParams` (`p.name == n`) and the specification's `Consistent` (`p.name == na.1`) have it.
+    A lookup that normalises the documented name first (`.lstrip('*')`, `.strip('_')`, `.lower()`, a prefix test …) lets an entry
+    whose name is *not* the name of any parameter (`*factor` for `factor`, `Options` for `options`) stand for one: the translator then
+    reports `false` here. -/
+theorem param_lookup_by_exact_name : paramLookupIsNameEquality = true := by decide
+
+/-- … and with exact names a documented entry whose name differs from every annotated parameter's name makes the docstring
+    inconsistent, whatever else it says (a renamed entry — `*factor`, `factor_`, `Factor`, `fac tor`, `facto` — is never absorbed). -/
+theorem renamed_entry_inconsistent (f : FnD) (s : SDoc) (p : SParam) (hp : p ∈ s.params)
+    (hne : ∀ na ∈ f.anns, na.1 ≠ p.name) : ¬ Consistent f s := by
+  intro h
+  obtain ⟨na, hna, heq, _⟩ := h.2.2.1 p hp
+  exact hne na hna heq
+
+/-- **a near name is not absorbed by the check**: when docstring checking applies, a docstring with an entry whose name is not the
+    name of an annotated parameter — however close: leading / trailing `*` or `_`, another case, a blank inside, a prefix — is never
+    accepted at decoration (for every signature, every docstring, no bound on sizes).  For a variadic parameter `*args: T` the
+    parameter's name is `args` (the key in `__annotations__`): `args (T)` documents it, `*args (T)` does not. -/
+theorem renamed_entry_not_accepted (env : Env) (req : Bool) (f : FnD) (d : Doc) (hen : env.enabled = true)
+    (hp : env.parserInstalled = true) (hs : SigOk f) (happ : Applies req (sdocOf f d))
+    (p : DocParam) (hmem : p ∈ d.params) (hne : ∀ na ∈ f.anns, na.1 ≠ p.name) :
+    decorator env req f d ≠ .wrapper := by
+  intro h
+  have hc := accepted_consistent env req f d hen hp hs happ h
+  refine renamed_entry_inconsistent f (sdocOf f d) ⟨p.name, p.ty.meaning⟩ ?_ hne hc
+  simp only [sdocOf, List.mem_map]
+  exact ⟨p, hmem, rfl⟩
+
+/-- the hypotheses are met by `exDocRenamed` (`a` documented under the name with code 3, everything else consistent): its second
+    entry names no parameter of `exFn`, checking applies, and decoration raises -/
+example : (⟨3, .parsed (.talias .List [.cls sInt])⟩ : DocParam).name ∉ exFn.anns.map (·.1) ∧
+    Applies false (sdocOf exFn exDocRenamed) ∧
+    decorator ⟨true, true⟩ false exFn exDocRenamed = .raised (.raised "PedanticDocstringException") := by decide
+
 end PedVerif.Docstring
